@@ -38,6 +38,12 @@ const K_F1: &str = "C02:commit-opstamp-stale";
 const K_F2: &str = "C02:delete-all-misses-pending-docs";
 const K_F3: &str = "C02:delete-all-reverts-stamper";
 const K_F8: &str = "C02:reopen-first-delete-published-by-merge";
+/// rollback() / drop only set a flag that stops NEW segment-updater tasks: a task that is running
+/// (end_merge: save_metas + GC) goes on after the new writer has loaded meta.json
+/// with two producer threads a batch stamped earlier can reach the worker later than a younger
+/// one; `skip_to(first opstamp of the segment)` has then already passed the deletes of the batch
+const K_F10: &str = "C02:producer-race-skip-to-passes-own-delete";
+const K_F9: &str = "C02:stale-updater-task-overwrites-meta-after-rollback";
 
 fn mix(mut z: u64) -> u64 {
     z = z.wrapping_add(0x9E37_79B9_7F4A_7C15);
@@ -60,8 +66,32 @@ fn doc_words(id: u64) -> Vec<u64> {
     ws.dedup();
     ws
 }
+/// ids from FAT_BASE on carry `fat_tokens(id)` tokens that no other document has: a few hundred of
+/// them fill the 15 MB arena of an indexing worker (real memory-budget segment cuts)
+const FAT_BASE: u64 = 5_000_000;
+const FATTER_BASE: u64 = 6_000_000;
+fn fat_tokens(id: u64) -> u64 {
+    if (FAT_BASE..FATTER_BASE).contains(&id) {
+        200
+    } else if (FATTER_BASE..FATTER_BASE + 1_000_000).contains(&id) {
+        700
+    } else {
+        0
+    }
+}
 fn doc_body(id: u64) -> String {
-    doc_words(id).iter().map(|w| format!("w{w}")).collect::<Vec<_>>().join(" ")
+    let mut s = doc_words(id).iter().map(|w| format!("w{w}")).collect::<Vec<_>>().join(" ");
+    for j in 0..fat_tokens(id) {
+        s.push_str(&format!(" u{id}x{j}"));
+    }
+    s
+}
+fn short(ids: &[u64]) -> String {
+    if ids.len() <= 12 {
+        format!("{ids:?}")
+    } else {
+        format!("{:?} … ({} documents)", &ids[..12], ids.len())
+    }
 }
 
 /// delete targets; `Id/Tag/Word/Grp` are terms (usable with delete_term and in batches)
@@ -224,6 +254,26 @@ fn render(toks: &[(Tok, Option<u64>)], all_ids: &[u64], with_obs: bool) -> Strin
 enum Dir {
     Ram(RamDirectory),
     Mmap(tempfile::TempDir),
+    /// instrumented RAM directory (operation log with thread ids), used to attribute storage races
+    V(crate::dirs::VDir),
+}
+
+/// (sequence number of the directory operation, OS thread id) and harness marks, for diagnosis
+static TIDS: std::sync::Mutex<Vec<(u64, String)>> = std::sync::Mutex::new(Vec::new());
+static MARKS: std::sync::Mutex<Vec<(usize, String)>> = std::sync::Mutex::new(Vec::new());
+
+fn vdir_with_hook(delay_meta_ms: u64) -> crate::dirs::VDir {
+    let v = crate::dirs::VDir::new();
+    v.with_state(|s| s.record_data = true);
+    TIDS.lock().unwrap().clear();
+    MARKS.lock().unwrap().clear();
+    v.set_hook(Some(std::sync::Arc::new(move |rec: &crate::dirs::OpRec| {
+        TIDS.lock().unwrap().push((rec.seq, format!("{:?}", std::thread::current().id())));
+        if delay_meta_ms > 0 && rec.kind == crate::dirs::OpKind::AtomicWrite && rec.path.ends_with("meta.json") && rec.thread == "segment_updater" {
+            std::thread::sleep(std::time::Duration::from_millis(delay_meta_ms));
+        }
+    })));
+    v
 }
 
 impl Dir {
@@ -231,6 +281,7 @@ impl Dir {
         match self {
             Dir::Ram(r) => Box::new(r.clone()),
             Dir::Mmap(t) => Box::new(MmapDirectory::open(t.path()).unwrap()),
+            Dir::V(v) => Box::new(v.clone()),
         }
     }
 }
@@ -266,6 +317,11 @@ struct Exec {
     session_dels: Vec<(Q, u64)>,
     stale_dels: Vec<(Q, u64)>,
     stuck_dels: Vec<Q>,
+    /// largest opstamp of an add of the current transaction / of adds that were pending at a
+    /// delete_all_documents of this writer (they keep their large opstamps in the pipeline: a
+    /// worker that serves one of them moves its delete cursor past every younger-stamped delete)
+    tx_max_add_op: Option<u64>,
+    stale_add_max: Option<u64>,
     f2_cands: BTreeSet<u64>,
     f3_missing: BTreeSet<u64>,
     f3_extra: BTreeSet<u64>,
@@ -274,6 +330,10 @@ struct Exec {
     /// of a re-created writer (its opstamp equals the commit opstamp: a merge of committed
     /// segments, whose target is that opstamp, applies and publishes it)
     f8_cands: BTreeSet<u64>,
+    /// documents added by a producer thread and deleted later by the SAME thread inside one
+    /// concurrent block in which another thread also adds (every linearisation deletes them)
+    f10_cands: BTreeSet<u64>,
+    producer_race_seen: bool,
     first_del: bool,
     /// a merge of committed segments can have run since such a delete: a merge policy is set, an
     /// explicit merge was issued, or rollback() re-created the writer (which silently resets the
@@ -281,6 +341,14 @@ struct Exec {
     merge_possible: bool,
     had_delete: bool,
     nsegs_max: usize,
+    /// the adds of every `run()` batch of the current transaction (one unit: one segment)
+    tx_batches: Vec<Vec<u64>>,
+    /// the writer still has the merge policy set by `open_writer` (rollback() resets it)
+    policy_intact: bool,
+    /// the current writer replaced one (rollback / abort / drop) whose merges could be in flight
+    replaced_busy_writer: bool,
+    /// a storage race of F9 was observed: the rest of the history is not meaningful
+    poisoned: bool,
     fresh: bool,
     was_fresh: bool,
     checkpoints: u64,
@@ -301,7 +369,13 @@ impl Exec {
         let body = sb.add_text_field("body", TEXT | STORED);
         let grp = sb.add_u64_field("grp", FAST | INDEXED | STORED);
         let schema = sb.build();
-        let dir = if cfg.mmap { Dir::Mmap(tempfile::tempdir().unwrap()) } else { Dir::Ram(RamDirectory::create()) };
+        let dir = if let Ok(ms) = std::env::var("C02_VDIR") {
+            Dir::V(vdir_with_hook(ms.parse().unwrap_or(0)))
+        } else if cfg.mmap {
+            Dir::Mmap(tempfile::tempdir().unwrap())
+        } else {
+            Dir::Ram(RamDirectory::create())
+        };
         let index = Index::create(dir.open(), schema, Default::default()).unwrap();
         tantivy::verif::set_segment_cut_docs(cfg.cut);
         let mut e = Exec {
@@ -322,15 +396,23 @@ impl Exec {
             session_dels: vec![],
             stale_dels: vec![],
             stuck_dels: vec![],
+            tx_max_add_op: None,
+            stale_add_max: None,
             f2_cands: BTreeSet::new(),
             f3_missing: BTreeSet::new(),
             f3_extra: BTreeSet::new(),
             dirty_delete_all: false,
             f8_cands: BTreeSet::new(),
+            f10_cands: BTreeSet::new(),
+            producer_race_seen: false,
             first_del: false,
             merge_possible: cfg.policy != 0,
             had_delete: false,
             nsegs_max: 0,
+            tx_batches: vec![],
+            policy_intact: true,
+            replaced_busy_writer: false,
+            poisoned: false,
             fresh: false,
             was_fresh: false,
             checkpoints: 0,
@@ -350,6 +432,10 @@ impl Exec {
             w.set_merge_policy(Box::new(p));
         }
         self.session_start = self.index.load_metas().unwrap().opstamp;
+        self.policy_intact = true;
+        self.tx_max_add_op = None;
+        self.stale_add_max = None;
+        self.tx_batches.clear();
         self.writer = Some(w);
         self.last_stamp = None;
         self.session_dels.clear();
@@ -359,6 +445,36 @@ impl Exec {
 
     fn w(&self) -> &IndexWriter {
         self.writer.as_ref().unwrap()
+    }
+
+    /// Before replacing the writer (rollback / abort / drop): let the segment-updater thread
+    /// finish the tasks it has (a `garbage_collect_files` task queued behind them and waited
+    /// for). rollback()/drop do not do that themselves (finding F9, reproduced deterministically
+    /// by `lifecycle_race`); without it the generated histories would hit that race at random.
+    fn quiesce(&mut self) {
+        if let Some(w) = self.writer.as_ref() {
+            let _ = w.garbage_collect_files().wait();
+        }
+        if self.merge_possible {
+            self.replaced_busy_writer = true;
+        }
+    }
+
+    /// a "file does not exist" error on a segment file after the writer replaced a busy one is the
+    /// residue of F9 (a merge thread can still slip an end_merge task in between `quiesce` and
+    /// the kill flag); anything else keeps its own key
+    fn storage_error(&mut self, key: &str, what: String, out: &mut Vec<Finding>) {
+        let missing_segment_file = what.contains("FileDoesNotExist") && {
+            let name = what.split('"').nth(1).unwrap_or("").rsplit('/').next().unwrap_or("").to_string();
+            let stem = name.split('.').next().unwrap_or("");
+            stem.len() == 32 && stem.chars().all(|c| c.is_ascii_hexdigit())
+        };
+        if missing_segment_file && self.replaced_busy_writer {
+            self.poisoned = true;
+            out.push(Finding { kind: "oracle", key: K_F9.into(), what: format!("{what} — the writer was re-created (rollback / drop) while merges of the previous writer could be in flight") });
+        } else {
+            out.push(Finding { kind: "oracle", key: key.into(), what });
+        }
     }
 
     /// an opstamp returned by add / delete / run / commit / prepare: strictly increasing
@@ -374,13 +490,14 @@ impl Exec {
     }
 
     fn tainted(&self, now: u64) -> bool {
-        self.stale_dels.iter().any(|(_, o)| *o >= now)
+        self.stale_dels.iter().any(|(_, o)| *o >= now) || self.stale_add_max.map_or(false, |m| m >= now)
     }
 
     fn note_add(&mut self, id: u64, op: u64) {
         self.all_ids.push(id);
         self.pending.push(id);
         self.tx_added.push(id);
+        self.tx_max_add_op = Some(self.tx_max_add_op.map_or(op, |m| m.max(op)));
         // F3: a delete issued before a delete_all of this session can still hit the document,
         // either directly (the reverted stamper gave the add a smaller opstamp) or through a
         // later delete queued behind it (applied without per-document opstamps once reached)
@@ -454,6 +571,10 @@ impl Exec {
                                 BItem::Del(q) => self.note_del(q, iop),
                             }
                         }
+                        let adds: Vec<u64> = items.iter().filter_map(|it| if let BItem::Add(i) = it { Some(*i) } else { None }).collect();
+                        if adds.len() > 1 {
+                            self.tx_batches.push(adds);
+                        }
                         self.toks.push((Tok::Batch(items.clone()), Some(o)));
                     }
                     Err(e) => self.errors.push(format!("run: {e}")),
@@ -477,6 +598,10 @@ impl Exec {
                         self.f2_cands.insert(*id);
                     }
                     self.stale_dels = self.session_dels.clone();
+                    if let Some(m) = self.tx_max_add_op {
+                        self.stale_add_max = Some(self.stale_add_max.map_or(m, |x| x.max(m)));
+                    }
+                    self.tx_batches.clear();
                     self.fresh = false;
                     self.pending.clear();
                     self.last_stamp = None; // the stamper was reverted (documented: "reverted stamp")
@@ -488,7 +613,7 @@ impl Exec {
                 let r = self.writer.as_mut().unwrap().commit();
                 match r {
                     Ok(o) => self.after_commit(ctx, o, None, None, case, out),
-                    Err(e) => out.push(Finding { kind: "oracle", key: "C02:commit-error".into(), what: format!("commit failed: {e}") }),
+                    Err(e) => self.storage_error("C02:commit-error", format!("commit failed: {e}"), out),
                 }
             }
             HOp::CommitPrepared(payload) => {
@@ -502,7 +627,7 @@ impl Exec {
                 });
                 match r {
                     Ok((po, o)) => self.after_commit(ctx, o, Some(po), *payload, case, out),
-                    Err(e) => out.push(Finding { kind: "oracle", key: "C02:commit-error".into(), what: format!("prepared commit failed: {e}") }),
+                    Err(e) => self.storage_error("C02:commit-error", format!("prepared commit failed: {e}"), out),
                 }
             }
             HOp::PrepareDrop => {
@@ -516,20 +641,24 @@ impl Exec {
                 }
             }
             HOp::PrepareAbort => {
+                self.quiesce();
                 let r = self.writer.as_mut().unwrap().prepare_commit().and_then(|pc| pc.abort());
                 match r {
                     Ok(o) => {
                         self.merge_possible = true;
+                        self.policy_intact = false;
                         self.after_rollback(ctx, Some(o), "abort", case, out)
                     }
                     Err(e) => out.push(Finding { kind: "oracle", key: "C02:rollback-error".into(), what: format!("abort failed: {e}") }),
                 }
             }
             HOp::Rollback => {
+                self.quiesce();
                 let r = self.writer.as_mut().unwrap().rollback();
                 match r {
                     Ok(o) => {
                         self.merge_possible = true;
+                        self.policy_intact = false;
                         self.after_rollback(ctx, Some(o), "rollback", case, out)
                     }
                     Err(e) => out.push(Finding { kind: "oracle", key: "C02:rollback-error".into(), what: format!("rollback failed: {e}") }),
@@ -558,6 +687,7 @@ impl Exec {
                 self.after_rollback(ctx, None, "wait_merging_threads+reopen", case, out);
             }
             HOp::DropReopen(open_index) => {
+                self.quiesce();
                 drop(self.writer.take());
                 if *open_index {
                     self.index = Index::open(self.dir.open()).unwrap();
@@ -604,6 +734,31 @@ impl Exec {
                 .collect();
             hs.into_iter().map(|h| h.join().unwrap()).collect()
         });
+        // F10 candidates: added, then deleted by the same thread, while another thread adds
+        let adders = threads.iter().filter(|ops| ops.iter().any(|o| matches!(o, HOp::Add(_)) || matches!(o, HOp::Batch(items) if items.iter().any(|i| matches!(i, BItem::Add(_)))))).count();
+        if adders >= 2 {
+            for ops in threads {
+                let mut flat: Vec<(bool, u64, Option<Q>)> = vec![];
+                for op in ops {
+                    match op {
+                        HOp::Add(i) => flat.push((true, *i, None)),
+                        HOp::DelTerm(q) | HOp::DelQuery(q) => flat.push((false, 0, Some(q.clone()))),
+                        HOp::Batch(items) => for it in items {
+                            match it {
+                                BItem::Add(i) => flat.push((true, *i, None)),
+                                BItem::Del(q) => flat.push((false, 0, Some(q.clone()))),
+                            }
+                        },
+                        _ => {}
+                    }
+                }
+                for (k, (is_add, id, _)) in flat.iter().enumerate() {
+                    if *is_add && flat[k + 1..].iter().any(|(a, _, q)| !*a && q.as_ref().map_or(false, |q| q_matches(q, *id))) {
+                        self.f10_cands.insert(*id);
+                    }
+                }
+            }
+        }
         // per thread: opstamps strictly increasing in program order
         let mut all: Vec<(u64, HOp)> = vec![];
         for (t, res) in results.iter().enumerate() {
@@ -651,6 +806,10 @@ impl Exec {
                             BItem::Del(q) => self.note_del(q, iop),
                         }
                     }
+                    let adds: Vec<u64> = items.iter().filter_map(|it| if let BItem::Add(i) = it { Some(*i) } else { None }).collect();
+                    if adds.len() > 1 {
+                        self.tx_batches.push(adds);
+                    }
                     self.toks.push((Tok::Batch(items), Some(o)));
                 }
                 _ => {}
@@ -672,6 +831,7 @@ impl Exec {
         }
         self.committed = self.pending.clone();
         self.tx_added.clear();
+        self.tx_max_add_op = None;
         self.last_commit = Some(o);
         self.last_payload = Some(payload);
         self.toks.push((Tok::Commit(payload), Some(o)));
@@ -701,6 +861,9 @@ impl Exec {
     fn after_rollback(&mut self, ctx: &mut Ctx, ret: Option<u64>, how: &str, case: &Case, out: &mut Vec<Finding>) {
         self.pending = self.committed.clone();
         self.tx_added.clear();
+        self.tx_batches.clear();
+        self.tx_max_add_op = None;
+        self.stale_add_max = None;
         self.session_dels.clear();
         self.stale_dels.clear();
         self.stuck_dels.clear();
@@ -727,13 +890,14 @@ impl Exec {
     }
 
     /// dump a fresh searcher three ways
-    fn dump(&mut self) -> Result<(Vec<u64>, Vec<u64>, Vec<u64>, Vec<String>), String> {
+    fn dump(&mut self) -> Result<(Vec<u64>, Vec<u64>, Vec<u64>, Vec<String>, BTreeMap<u64, usize>), String> {
         let reader = self.index.reader_builder().reload_policy(ReloadPolicy::Manual).try_into().map_err(|e: tantivy::TantivyError| e.to_string())?;
         reader.reload().map_err(|e| e.to_string())?;
         let searcher = reader.searcher();
         let mut stored = vec![];
         let mut fast = vec![];
         let mut field_errors = vec![];
+        let mut seg_of: BTreeMap<u64, usize> = BTreeMap::new();
         self.nsegs_max = self.nsegs_max.max(searcher.segment_readers().len());
         let mut total = 0u64;
         for (ord, sr) in searcher.segment_readers().iter().enumerate() {
@@ -751,11 +915,12 @@ impl Exec {
                 match sid {
                     Some(id) => {
                         stored.push(id);
+                        seg_of.insert(id, ord);
                         let tag = d.get_first(self.f.tag).and_then(|v| v.as_str().map(|s| s.to_string()));
                         let body = d.get_first(self.f.body).and_then(|v| v.as_str().map(|s| s.to_string()));
                         let grp = d.get_first(self.f.grp).and_then(|v| v.as_u64());
                         if tag != Some(format!("t{}", doc_tag(id))) || body != Some(doc_body(id)) || grp != Some(doc_grp(id)) || gcol.first(doc) != Some(doc_grp(id)) || fid != Some(id) {
-                            field_errors.push(format!("document {id}: fields tag={tag:?} body={body:?} grp={grp:?} fast-id={fid:?}"));
+                            field_errors.push(format!("document {id}: fields tag={tag:?} body={:?} grp={grp:?} fast-id={fid:?}", body.map(|b| b.chars().take(60).collect::<String>())));
                         }
                     }
                     None => field_errors.push(format!("segment {ord} doc {doc}: no stored id")),
@@ -794,16 +959,16 @@ impl Exec {
         stored.sort();
         fast.sort();
         by_term.sort();
-        Ok((stored, fast, by_term, field_errors))
+        Ok((stored, fast, by_term, field_errors, seg_of))
     }
 
     fn checkpoint(&mut self, ctx: &mut Ctx, how: &str, cop: Option<u64>, _case: &Case, out: &mut Vec<Finding>) {
         self.checkpoints += 1;
         ctx.report.count(&format!("checkpoint:{how}"));
-        let (stored, fast, by_term, ferrs) = match self.dump() {
+        let (stored, fast, by_term, ferrs, seg_of) = match self.dump() {
             Ok(x) => x,
             Err(e) => {
-                out.push(Finding { kind: "oracle", key: "C02:searcher-unreadable".into(), what: format!("after {how}: {e}") });
+self.storage_error("C02:searcher-unreadable", format!("after {how}: {e}"), out);
                 return;
             }
         };
@@ -811,7 +976,22 @@ impl Exec {
             out.push(Finding { kind: "oracle", key: "C02:survivor-fields-wrong".into(), what: format!("after {how}: {fe}") });
         }
         if stored != fast || stored != by_term {
-            out.push(Finding { kind: "oracle", key: "C02:dump-methods-disagree".into(), what: format!("after {how}: stored {:?} fast {:?} term-queries {:?}", stored, fast, by_term) });
+            out.push(Finding { kind: "oracle", key: "C02:dump-methods-disagree".into(), what: format!("after {how}: stored {} fast {} term-queries {}", short(&stored), short(&fast), short(&by_term)) });
+        }
+        // batch atomicity: the adds of one run() batch reach one worker as one unit, i.e. sit in one
+        // segment (checked at the commit that publishes them, while nothing can have merged them:
+        // NoMergePolicy still set, segments of the transaction are not reachable by merge())
+        if how == "commit" {
+            if self.cfg.policy == 0 && self.policy_intact {
+                for b in &self.tx_batches {
+                    let segs: BTreeSet<usize> = b.iter().filter_map(|i| seg_of.get(i).cloned()).collect();
+                    ctx.report.count("batch-unit:checked");
+                    if segs.len() > 1 {
+                        out.push(Finding { kind: "oracle", key: "C02:batch-split-across-segments".into(), what: format!("the adds {} of one run() batch are published in {} different segments", short(b), segs.len()) });
+                    }
+                }
+            }
+            self.tx_batches.clear();
         }
         let mut expected = self.committed.clone();
         expected.sort();
@@ -858,8 +1038,11 @@ impl Exec {
         if !extra.is_empty() || !missing.is_empty() {
             ctx.report.count("checkpoint:differs-from-replay");
             let (mut f2, mut f3e, mut other_e) = (vec![], vec![], vec![]);
+            let mut f10 = vec![];
             for id in &extra {
-                if !lean_clean && self.f2_cands.contains(id) {
+                if self.f10_cands.contains(id) {
+                    f10.push(*id);
+                } else if !lean_clean && self.f2_cands.contains(id) {
                     f2.push(*id);
                 } else if !lean_clean && self.f3_extra.contains(id) {
                     f3e.push(*id);
@@ -881,6 +1064,10 @@ impl Exec {
             if !f8.is_empty() {
                 out.push(Finding { kind: "oracle", key: K_F8.into(), what: format!("after {how}: documents {:?} were removed and published without a commit: the first delete of a re-created writer has the opstamp of the last commit and a merge of committed segments (target = that opstamp) applied it", f8) });
             }
+            if !f10.is_empty() {
+                self.producer_race_seen = true;
+                out.push(Finding { kind: "oracle", key: K_F10.into(), what: format!("after {how}: documents {} were added and then deleted by the same producer thread (another thread was adding concurrently) and are published", short(&f10)) });
+            }
             if !f2.is_empty() {
                 out.push(Finding { kind: "oracle", key: K_F2.into(), what: format!("after {how}: documents {:?} were added before a delete_all_documents of the same transaction and are published", f2) });
             }
@@ -888,24 +1075,26 @@ impl Exec {
                 out.push(Finding { kind: "oracle", key: K_F3.into(), what: format!("after {how}: documents {:?}, added after a delete_all_documents, were removed by a delete issued before it", f3m) });
             }
             if !f3e.is_empty() {
-                out.push(Finding { kind: "oracle", key: K_F3.into(), what: format!("after {how}: documents {:?} survive a delete queued behind one with a larger opstamp (stamper reverted by delete_all_documents)", f3e) });
+                out.push(Finding { kind: "oracle", key: K_F3.into(), what: format!("after {how}: documents {:?} survive a later delete: delete_all_documents reverted the stamper below operations still in the pipeline (a delete queued behind one with a larger opstamp, or a worker whose cursor moved past the delete while serving an older document with a larger opstamp)", f3e) });
             }
             if !other_e.is_empty() {
-                out.push(Finding { kind: "oracle", key: "C02:unexpected-survivor".into(), what: format!("after {how}: documents {:?} are published but not in the sequential replay", other_e) });
+                out.push(Finding { kind: "oracle", key: "C02:unexpected-survivor".into(), what: format!("after {how}: documents {} are published but not in the sequential replay", short(&other_e)) });
             }
             if !other_m.is_empty() {
-                out.push(Finding { kind: "oracle", key: "C02:missing-document".into(), what: format!("after {how}: documents {:?} of the sequential replay are not published", other_m) });
+                out.push(Finding { kind: "oracle", key: "C02:missing-document".into(), what: format!("after {how}: documents {} of the sequential replay are not published", short(&other_m)) });
             }
         }
         // the implementation-level model (every schedule gives the same answer when the hypothesis holds)
-        if clean == "clean" {
+        if clean == "clean" && self.producer_race_seen {
+            ctx.report.count("impl-model:skipped-after-producer-race");
+        } else if clean == "clean" {
             let line = render(&self.toks, &self.all_ids, true);
             let seed = mix(self.checkpoints ^ (self.all_ids.len() as u64) << 8) % 1_000_000_007;
             let resp = ask(ctx, &format!("C02 impl {} {} {}", self.cfg.threads, seed, line));
             ctx.report.count("impl-model:runs");
             let pubs = field(&resp, "pub").and_then(|s| crate::model::parse_nat_list(&s));
             if pubs.as_ref() != Some(&stored) {
-                out.push(Finding { kind: "model", key: "C02:impl-model-published-mismatch".into(), what: format!("after {how}: implementation publishes {:?}, model {resp}", stored) });
+                out.push(Finding { kind: "model", key: "C02:impl-model-published-mismatch".into(), what: format!("after {how}: implementation publishes {}, model {}", short(&stored), resp.chars().take(300).collect::<String>()) });
             } else {
                 let rets = field(&resp, "ret").and_then(|s| crate::model::parse_nat_list(&s)).unwrap_or_default();
                 let obs: Vec<Option<u64>> = self.toks.iter().map(|(_, o)| *o).collect();
@@ -1138,6 +1327,266 @@ fn gen_case(rng: &mut Rng, profile: u64) -> Case {
     Case { config, ops }
 }
 
+/// real memory-budget cuts (no hook): `run()` batches of documents with many unique terms, so that
+/// the indexing worker reaches `budget - margin` in the middle of a batch
+fn gen_memcut_case(rng: &mut Rng, shape: u64) -> Case {
+    let mut next = FAT_BASE + rng.below(1000);
+    let mut small = rng.below(5);
+    let mut fat = |n: u64| -> Vec<u64> {
+        let v: Vec<u64> = (next..next + n).collect();
+        next += n;
+        v
+    };
+    let adds = |ids: Vec<u64>| -> HOp { HOp::Batch(ids.into_iter().map(BItem::Add).collect()) };
+    let mut ops: Vec<HOp> = vec![];
+    let mut threads = 1;
+    match shape % 7 {
+        0 => {
+            // one batch, about twice what fits
+            ops.push(adds(fat(240 + rng.below(120))));
+        }
+        1 => {
+            // batches back to back: the second starts in a partly filled / fresh segment
+            ops.push(adds(fat(150 + rng.below(80))));
+            ops.push(adds(fat(150 + rng.below(80))));
+            ops.push(adds(fat(20 + rng.below(60))));
+        }
+        2 => {
+            // single adds fill the arena almost, a batch crosses the limit
+            for id in fat(90 + rng.below(40)) {
+                ops.push(HOp::Add(id));
+            }
+            ops.push(adds(fat(60 + rng.below(60))));
+            ops.push(HOp::Add(fat(1)[0]));
+        }
+        3 => {
+            // deletes inside and around the batch
+            ops.push(HOp::Add(small));
+            small += 1;
+            ops.push(HOp::DelTerm(Q::Tag(rng.below(NTAG))));
+            let ids = fat(230 + rng.below(60));
+            let mut items = vec![];
+            for (k, id) in ids.iter().enumerate() {
+                items.push(BItem::Add(*id));
+                if k % 17 == 5 {
+                    items.push(BItem::Del(Q::Id(ids[k - rng.usize_below(5)])));
+                }
+                if k % 41 == 7 {
+                    items.push(BItem::Del(Q::Id(ids[(k + 3).min(ids.len() - 1)])));
+                }
+                if k == 100 {
+                    items.push(BItem::Del(Q::Grp(rng.below(NGRP))));
+                }
+            }
+            ops.push(HOp::Batch(items));
+            ops.push(HOp::DelTerm(Q::Tag(rng.below(NTAG))));
+            ops.push(HOp::Add(small));
+        }
+        4 => {
+            threads = 2 + rng.usize_below(2);
+            for _ in 0..4 {
+                ops.push(adds(fat(150 + rng.below(60))));
+            }
+        }
+        5 => {
+            ops.push(adds(fat(200 + rng.below(60))));
+            ops.push(HOp::Rollback);
+            ops.push(adds(fat(200 + rng.below(60))));
+            ops.push(HOp::CommitPrepared(Some(rng.below(100))));
+            ops.push(HOp::DropReopen(true));
+            ops.push(adds(fat(180 + rng.below(40))));
+        }
+        _ => {
+            // fewer, fatter documents
+            let base = FATTER_BASE + rng.below(1000);
+            let n = 55 + rng.below(30);
+            let v: Vec<u64> = (base..base + n).collect();
+            ops.push(HOp::Batch(v.into_iter().map(BItem::Add).collect()));
+        }
+    }
+    ops.push(HOp::Commit);
+    Case { config: Config { threads, cut: 0, policy: 0, mmap: false }, ops }
+}
+
+/// F9, deterministically: the segment-updater thread of the old writer is held (by the
+/// instrumented directory) inside `save_metas` of an `end_merge` task while the main thread calls
+/// `rollback()`; the new writer loads the old meta.json, then the old task writes its own.
+/// The finding is reported only if the directory log shows exactly that: the last meta.json was
+/// written by the OLD updater thread after rollback() returned, it names a segment, and a file of
+/// that segment was then deleted by ANOTHER (the new writer's) updater thread.
+fn lifecycle_race(ctx: &mut Ctx) {
+    use crate::dirs::{OpKind, OpRec, VDir};
+    use std::sync::atomic::{AtomicU8, Ordering};
+    use std::sync::{Arc, Mutex};
+    let v = VDir::new();
+    v.with_state(|s| s.record_data = true);
+    let state = Arc::new(AtomicU8::new(0)); // 0 idle, 1 armed, 2 held, 3 released
+    let skip = Arc::new(AtomicU8::new(1)); // meta.json writes of the updater to let pass (the commit's own)
+    let tids: Arc<Mutex<Vec<(u64, String)>>> = Arc::new(Mutex::new(vec![]));
+    {
+        let state = state.clone();
+        let skip = skip.clone();
+        let tids = tids.clone();
+        v.set_hook(Some(Arc::new(move |rec: &OpRec| {
+            tids.lock().unwrap().push((rec.seq, format!("{:?}", std::thread::current().id())));
+            if rec.kind == OpKind::AtomicWrite && rec.path.ends_with("meta.json") && rec.thread == "segment_updater"
+                && state.load(Ordering::SeqCst) == 1
+                && skip.fetch_update(Ordering::SeqCst, Ordering::SeqCst, |x| x.checked_sub(1)).is_err()
+                && state.compare_exchange(1, 2, Ordering::SeqCst, Ordering::SeqCst).is_ok()
+            {
+                let t0 = std::time::Instant::now();
+                while state.load(Ordering::SeqCst) != 3 && t0.elapsed().as_millis() < 3000 {
+                    std::thread::sleep(std::time::Duration::from_millis(1));
+                }
+            }
+        })));
+    }
+    let res = catch_unwind(AssertUnwindSafe(|| -> Option<String> {
+        let mut sb = Schema::builder();
+        let id = sb.add_u64_field("id", FAST | INDEXED | STORED);
+        let index = Index::create(v.clone(), sb.build(), Default::default()).ok()?;
+        tantivy::verif::set_segment_cut_docs(1);
+        let mut w: IndexWriter = index.writer_with_num_threads(1, 15_000_000).ok()?;
+        let mut pol = LogMergePolicy::default();
+        pol.set_min_num_segments(2);
+        w.set_merge_policy(Box::new(pol));
+        for i in 1..=4u64 {
+            let mut d = TantivyDocument::default();
+            d.add_u64(id, i);
+            w.add_document(d).ok()?;
+        }
+        // the policy merges the committed segments after the commit; hold its end_merge at the
+        // meta.json write (the commit's own write passes)
+        state.store(1, Ordering::SeqCst);
+        w.commit().ok()?;
+        let t0 = std::time::Instant::now();
+        while state.load(Ordering::SeqCst) != 2 && t0.elapsed().as_millis() < 3000 {
+            std::thread::sleep(std::time::Duration::from_millis(1));
+        }
+        if state.load(Ordering::SeqCst) != 2 {
+            state.store(3, Ordering::SeqCst);
+            return Some("not-reached".into());
+        }
+        w.rollback().ok()?;
+        let after_rollback = v.log_len();
+        state.store(3, Ordering::SeqCst);
+        // the old task finishes (meta.json, GC) and the old updater is dropped
+        std::thread::sleep(std::time::Duration::from_millis(150));
+        let _ = w.garbage_collect_files().wait();
+        let opened = Index::open(v.clone()).and_then(|i| i.reader_builder().reload_policy(ReloadPolicy::Manual).try_into());
+        let err = match opened {
+            Ok(_) => return Some("quiet".into()),
+            Err(e) => e.to_string(),
+        };
+        drop(w);
+        // verify the signature on the directory log
+        let log = v.log();
+        let tids = tids.lock().unwrap().clone();
+        let tid = |seq: u64| tids.iter().find(|(s, _)| *s == seq).map(|(_, t)| t.clone()).unwrap_or_default();
+        let metas: Vec<&OpRec> = log.iter().filter(|r| r.kind == OpKind::AtomicWrite && r.path.ends_with("meta.json") && r.thread == "segment_updater").collect();
+        let last = metas.last()?;
+        let old_updater = tid(metas.first()?.seq);
+        let last_segs: Vec<String> = last.data.as_ref().and_then(|d| serde_json::from_slice::<serde_json::Value>(d).ok())
+            .and_then(|m| m["segments"].as_array().map(|a| a.iter().filter_map(|s| s["segment_id"].as_str().map(|x| x.replace('-', ""))).collect()))
+            .unwrap_or_default();
+        let missing = err.split('"').nth(1).unwrap_or("").rsplit('/').next().unwrap_or("").to_string();
+        let stem = missing.split('.').next().unwrap_or("").to_string();
+        let del = log.iter().enumerate().find(|(_, r)| r.kind == OpKind::Delete && r.path == missing);
+        let sig = tid(last.seq) == old_updater
+            && last_segs.contains(&stem)
+            && del.map_or(false, |(k, r)| k >= after_rollback && tid(r.seq) != old_updater && r.thread == "segment_updater");
+        if sig {
+            Some(format!("F9|{err}|meta.json written by the old writer's updater thread {} (held inside end_merge while rollback() ran and returned) names segment {stem}; its file {missing} was then deleted by the new writer's updater thread {}", old_updater, del.map(|(_, r)| tid(r.seq)).unwrap_or_default()))
+        } else {
+            Some(format!("other|{err}"))
+        }
+    }));
+    tantivy::verif::set_segment_cut_docs(0);
+    state.store(3, std::sync::atomic::Ordering::SeqCst);
+    let case = json!({"kind": "lifecycle-race"});
+    match res {
+        Ok(Some(s)) if s == "quiet" => ctx.report.count("lifecycle-race:quiet"),
+        Ok(Some(s)) if s == "not-reached" => ctx.report.count("lifecycle-race:window-not-reached"),
+        Ok(Some(s)) if s.starts_with("F9|") => {
+            ctx.report.count("lifecycle-race:reproduced");
+            ctx.report.violation("oracle", K_F9, format!("after rollback() a fresh Index::open / reader fails: {}", &s[3..]), case);
+        }
+        Ok(Some(s)) => ctx.report.violation("oracle", "C02:index-unreadable-after-rollback", format!("rollback while an end_merge task runs: {s}"), case),
+        Ok(None) => ctx.report.count("lifecycle-race:setup-failed"),
+        Err(_) => ctx.report.violation("oracle", "C02:panic", "panic in the rollback / end_merge race scenario".into(), case),
+    }
+    ctx.report.case("lifecycle-race", true);
+}
+
+/// F10 searched for directly: producer A issues batches `[add x, delete x, add y]`, producer B
+/// single adds, one indexing worker, every batch its own segment (so every batch starts with a
+/// `skip_to`). Whatever the interleaving, no `x` may be published.
+fn producer_race(ctx: &mut Ctx, rounds: u64) {
+    let res = catch_unwind(AssertUnwindSafe(|| -> Option<(Vec<u64>, u64)> {
+        let mut sb = Schema::builder();
+        let id = sb.add_u64_field("id", FAST | INDEXED | STORED);
+        let index = Index::create(RamDirectory::create(), sb.build(), Default::default()).ok()?;
+        tantivy::verif::set_segment_cut_docs(1);
+        let mut w: IndexWriter = index.writer_with_num_threads(1, 15_000_000).ok()?;
+        w.set_merge_policy(Box::new(NoMergePolicy));
+        let mk = |i: u64| {
+            let mut d = TantivyDocument::default();
+            d.add_u64(id, i);
+            d
+        };
+        {
+            let w = &w;
+            std::thread::scope(|s| {
+                s.spawn(move || {
+                    for k in 0..rounds {
+                        let x = 3 * k;
+                        let _ = w.run(vec![UserOperation::Add(mk(x)), UserOperation::Delete(Term::from_field_u64(id, x)), UserOperation::Add(mk(x + 1))]);
+                    }
+                });
+                s.spawn(move || {
+                    for k in 0..2 * rounds {
+                        let _ = w.add_document(mk(1_000_000 + k));
+                    }
+                });
+            });
+        }
+        w.commit().ok()?;
+        let reader = index.reader_builder().reload_policy(ReloadPolicy::Manual).try_into().ok()?;
+        let searcher: tantivy::Searcher = { let r: tantivy::IndexReader = reader; r.reload().ok()?; r.searcher() };
+        let mut survivors = vec![];
+        let mut others = 0u64;
+        for sr in searcher.segment_readers() {
+            let col = sr.fast_fields().u64("id").ok()?;
+            for doc in sr.doc_ids_alive() {
+                match col.first(doc) {
+                    Some(v) if v < 1_000_000 && v % 3 == 0 => survivors.push(v),
+                    _ => others += 1,
+                }
+            }
+        }
+        survivors.sort();
+        Some((survivors, others))
+    }));
+    tantivy::verif::set_segment_cut_docs(0);
+    let case = json!({"kind": "producer-race", "rounds": rounds});
+    ctx.report.case("producer-race", true);
+    match res {
+        Ok(Some((survivors, others))) => {
+            if others != 3 * rounds {
+                ctx.report.violation("oracle", "C02:missing-document", format!("producer scenario: {others} of {} documents that nothing deletes are published", 3 * rounds), case.clone());
+            }
+            if survivors.is_empty() {
+                ctx.report.count("producer-race:quiet");
+            } else {
+                ctx.report.count("producer-race:reproduced");
+                ctx.report.violation("oracle", K_F10, format!("two producer threads, one worker: {} of {rounds} documents x that their own batch `[add x, delete_term(x), add y]` deletes are published after commit (e.g. {})", survivors.len(), short(&survivors)), case);
+            }
+        }
+        Ok(None) => ctx.report.count("producer-race:setup-failed"),
+        Err(_) => ctx.report.violation("oracle", "C02:panic", "panic in the producer race scenario".into(), case),
+    }
+}
+
 fn run_case(ctx: &mut Ctx, case: &Case) -> Vec<Finding> {
     let mut out: Vec<Finding> = vec![];
     let res = catch_unwind(AssertUnwindSafe(|| {
@@ -1148,7 +1597,45 @@ fn run_case(ctx: &mut Ctx, case: &Case) -> Vec<Finding> {
             if std::env::var("C02_TRACE").is_ok() {
                 eprintln!("op {:?} cfg {:?}", op, case.config);
             }
+            if let Dir::V(v) = &e.dir {
+                MARKS.lock().unwrap().push((v.log_len(), format!("{}", op_name(op))));
+            }
+            if e.poisoned {
+                ctx.report.count("history:stopped-after-F9-residue");
+                break;
+            }
             e.apply(ctx, op, case, &mut found);
+        }
+        if let Dir::V(v) = &e.dir {
+            if let Some(f) = found.iter().find(|f| f.what.contains("FileDoesNotExist")) {
+                let name = f.what.split('"').nth(1).unwrap_or("").trim_end_matches('\\').to_string();
+                let stem = name.split('.').next().unwrap_or("").to_string();
+                let tids = TIDS.lock().unwrap().clone();
+                let tid = |seq: u64| tids.iter().find(|(s, _)| *s == seq).map(|(_, t)| t.clone()).unwrap_or_default();
+                eprintln!("DIAG missing file {name}");
+                let marks = MARKS.lock().unwrap().clone();
+                let log = v.log();
+                let mut mi = 0;
+                for (k, r) in log.iter().enumerate() {
+                    while mi < marks.len() && marks[mi].0 <= k {
+                        eprintln!("DIAG   ---- harness op: {}", marks[mi].1);
+                        mi += 1;
+                    }
+                    let interesting = (r.path.contains(&stem) && (r.kind == crate::dirs::OpKind::Delete || r.kind == crate::dirs::OpKind::OpenWrite || (r.kind == crate::dirs::OpKind::OpenRead && !r.ok)))
+                        || (r.path.ends_with("meta.json") && r.kind == crate::dirs::OpKind::AtomicWrite)
+                        || r.path.ends_with(".lock")
+                        || (std::env::var("C02_DIAG_ALL").is_ok() && r.kind != crate::dirs::OpKind::Write && r.kind != crate::dirs::OpKind::Flush && r.kind != crate::dirs::OpKind::Terminate && r.kind != crate::dirs::OpKind::Exists);
+                    if interesting {
+                        let extra = if r.path.ends_with("meta.json") && (r.kind == crate::dirs::OpKind::AtomicWrite || r.kind == crate::dirs::OpKind::AtomicRead) {
+                            r.data.as_ref().and_then(|d| serde_json::from_slice::<serde_json::Value>(d).ok()).map(|v| {
+                                let segs: Vec<String> = v["segments"].as_array().map(|a| a.iter().map(|s| s["segment_id"].as_str().unwrap_or("").chars().take(8).collect::<String>()).collect()).unwrap_or_default();
+                                format!(" opstamp={} segs={:?}", v["opstamp"], segs)
+                            }).unwrap_or_default()
+                        } else { String::new() };
+                        eprintln!("DIAG {} {} {} {} ok={} tid={}{}", r.seq, r.thread, r.kind.name(), r.path, r.ok, tid(r.seq), extra);
+                    }
+                }
+            }
         }
         for err in e.errors.iter().take(2) {
             found.push(Finding { kind: "oracle", key: "C02:api-error".into(), what: err.clone() });
@@ -1245,6 +1732,14 @@ pub fn run(ctx: &mut Ctx) {
         "every survivor once, with all its fields; payload; rollback() = last commit".into(),
     ];
     if let Some(case) = ctx.replay.clone() {
+        if case["kind"] == "lifecycle-race" {
+            lifecycle_race(ctx);
+            return;
+        }
+        if case["kind"] == "producer-race" {
+            producer_race(ctx, case["rounds"].as_u64().unwrap_or(400));
+            return;
+        }
         match serde_json::from_value::<Case>(case) {
             Ok(c) => {
                 let f = run_case(ctx, &c);
@@ -1260,6 +1755,23 @@ pub fn run(ctx: &mut Ctx) {
     for c in corpus() {
         let f = run_case(ctx, &c);
         report_findings(ctx, &c, f);
+    }
+    // rollback() while a task of the old segment updater is running (F9), gated deterministically
+    for _ in 0..ctx.budget(2, 10) {
+        lifecycle_race(ctx);
+    }
+    // producer threads racing between stamp and send (F10)
+    producer_race(ctx, ctx.budget(120, 2000));
+    // real memory-budget cuts in the middle of run() batches
+    let memcut = ctx.budget(7, 70);
+    for k in 0..memcut {
+        let mut rng = ctx.rng.fork();
+        let case = gen_memcut_case(&mut rng, k);
+        let before = ctx.report.distribution.get("max-segments:1").cloned().unwrap_or(0);
+        let f = run_case(ctx, &case);
+        let after = ctx.report.distribution.get("max-segments:1").cloned().unwrap_or(0);
+        ctx.report.count(if after > before { "memcut:one-segment" } else { "memcut:several-segments" });
+        report_findings(ctx, &case, f);
     }
     let histories = ctx.budget(170, 3500);
     for k in 0..histories {
